@@ -9,39 +9,49 @@ Section Generic.
 
   (* the wrapper returns exactly what the Go function returns on the converted arguments ... *)
   Lemma wrapper_exact : forall w args a,
-    unpack w args = Ok a ->
+    unpack w args = Ok a -> guards_pass w (place w a) = true ->
     run_wrapper F w args = lift (w_ret w) (F (w_callee w) (place w a)).
-  Proof. intros w args a H. unfold run_wrapper. rewrite H. reflexivity. Qed.
+  Proof. intros w args a H G. unfold run_wrapper. rewrite H. cbv zeta. rewrite G. reflexivity. Qed.
 
-  (* ... and when an argument is rejected the Go function is not consulted at all *)
+  (* ... when an argument is rejected the Go function is not consulted at all ... *)
   Lemma wrapper_error : forall w args e,
     unpack w args = Err e -> run_wrapper F w args = Ret (OErr e).
   Proof. intros w args e H. unfold run_wrapper. rewrite H. reflexivity. Qed.
 
+  (* ... nor when one of the wrapper's own value checks fires *)
+  Lemma wrapper_guard_error : forall w args a,
+    unpack w args = Ok a -> guards_pass w (place w a) = false ->
+    run_wrapper F w args = Ret (OErr EValue).
+  Proof. intros w args a H G. unfold run_wrapper. rewrite H. cbv zeta. rewrite G. reflexivity. Qed.
+
   Lemma wrapper_value : forall w args a v,
-    unpack w args = Ok a -> F (w_callee w) (place w a) = GOk v ->
+    unpack w args = Ok a -> guards_pass w (place w a) = true ->
+    F (w_callee w) (place w a) = GOk v ->
     run_wrapper F w args = Ret (mk_ret (w_ret w) v).
-  Proof. intros. erewrite wrapper_exact by eassumption. rewrite H0. reflexivity. Qed.
+  Proof. intros. erewrite wrapper_exact by eassumption. rewrite H1. reflexivity. Qed.
 
   Lemma wrapper_go_error : forall w args a t,
-    unpack w args = Ok a -> F (w_callee w) (place w a) = GFail t ->
+    unpack w args = Ok a -> guards_pass w (place w a) = true ->
+    F (w_callee w) (place w a) = GFail t ->
     run_wrapper F w args = Ret (OErr (EGo t)).
-  Proof. intros. erewrite wrapper_exact by eassumption. rewrite H0. reflexivity. Qed.
+  Proof. intros. erewrite wrapper_exact by eassumption. rewrite H1. reflexivity. Qed.
 
   (* faithful to the code as it is: a panic of the Go function is not turned into an error *)
   Lemma wrapper_panic_propagates : forall w args a t,
-    unpack w args = Ok a -> F (w_callee w) (place w a) = GPanic t ->
+    unpack w args = Ok a -> guards_pass w (place w a) = true ->
+    F (w_callee w) (place w a) = GPanic t ->
     run_wrapper F w args = Panic t.
-  Proof. intros. erewrite wrapper_exact by eassumption. rewrite H0. reflexivity. Qed.
+  Proof. intros. erewrite wrapper_exact by eassumption. rewrite H1. reflexivity. Qed.
 
   Lemma wrapper_total_guarded : forall w args,
-    (forall a t, unpack w args = Ok a -> F (w_callee w) (place w a) <> GPanic t) ->
+    (forall a t, unpack w args = Ok a -> guards_pass w (place w a) = true ->
+                 F (w_callee w) (place w a) <> GPanic t) ->
     exists o, run_wrapper F w args = Ret o.
   Proof.
-    intros w args H. unfold run_wrapper. destruct (unpack w args) as [a|e] eqn:U.
-    - specialize (H a). destruct (F (w_callee w) (place w a)) eqn:E; simpl; eauto.
-      exfalso. eapply H; eauto.
-    - eauto.
+    intros w args H. unfold run_wrapper. destruct (unpack w args) as [a|e] eqn:U; [|eauto].
+    cbv zeta. destruct (guards_pass w (place w a)) eqn:G; [|eauto].
+    specialize (H a). destruct (F (w_callee w) (place w a)) eqn:E; simpl; eauto.
+    exfalso. eapply H; eauto.
   Qed.
 
   (* the result of a wrong number of arguments *)
@@ -210,4 +220,60 @@ Proof.
   destruct (place_spec w a P M) as [L N].
   repeat split; try assumption.
   intros. eapply wf_plain_order; eassumption.
+Qed.
+
+(* ------------------------------------------------------------------ the guarded repeat wrappers *)
+Lemma mk_repeat_unpack : forall name callee c0 ret b args a,
+  text_conv c0 = true ->
+  unpack (mk_repeat name callee c0 ret b) args = Ok a ->
+  exists g n, (exists s, g = GStr s \/ g = GBytes s) /\
+              place (mk_repeat name callee c0 ret b) a = [g; GInt n].
+Proof.
+  intros name callee c0 ret b args a T U. unfold unpack in U.
+  destruct args as [|x [|y [|z r]]]; try discriminate U.
+  cbn in U.
+  destruct (convert c0 x) as [g|e] eqn:Cx; [|discriminate U].
+  assert (Hg : exists s, g = GStr s \/ g = GBytes s).
+  { destruct c0; try discriminate T; destruct x; simpl in Cx; try discriminate Cx;
+      inversion Cx; eauto. }
+  destruct (as_int y) as [gi|e] eqn:Cy; [|discriminate U].
+  destruct y; simpl in Cy; try discriminate Cy; inversion Cy; subst gi; cbn in U;
+    inversion U; subst a; eexists; eexists; (split; [exact Hg|reflexivity]).
+Qed.
+
+(* with the checks in place the wrapper never lets strings.Repeat / bytes.Repeat panic *)
+Lemma mk_repeat_total : forall name callee c0 ret b args,
+  text_conv c0 = true -> (0 <= b < 2 ^ 40)%Z ->
+  exists o, run_wrapper go_repeat (mk_repeat name callee c0 ret b) args = Ret o.
+Proof.
+  intros name callee c0 ret b args T B. apply wrapper_total_guarded.
+  intros a t U G.
+  destruct (mk_repeat_unpack _ _ _ _ _ _ _ T U) as [g [n [[s Hs] P]]].
+  rewrite P in *. unfold guards_pass in G. cbn in G.
+  assert (Hlen : glen g = Some (Z.of_nat (List.length s))) by (destruct Hs; subst g; reflexivity).
+  rewrite Hlen in G.
+  apply negb_true_iff in G. apply orb_false_iff in G. destruct G as [G1 G2].
+  apply orb_false_iff in G2. destruct G2 as [G2 _].
+  apply Z.ltb_ge in G1.
+  assert (Hsafe : repeat_panics s n = false).
+  { unfold repeat_panics. apply orb_false_iff. split; [apply Z.ltb_ge; assumption|].
+    apply Z.leb_gt.
+    destruct (0 <? Z.of_nat (List.length s))%Z eqn:K.
+    - simpl in G2. apply Z.ltb_ge in G2. apply Z.ltb_lt in K.
+      assert (Z.of_nat (List.length s) * n <= b)%Z; [|lia].
+      transitivity (Z.of_nat (List.length s) * (b / Z.of_nat (List.length s)))%Z.
+      + apply Z.mul_le_mono_nonneg_l; lia.
+      + apply Z.mul_div_le. assumption.
+    - apply Z.ltb_ge in K. assert (Z.of_nat (List.length s) = 0)%Z as -> by lia. lia. }
+  destruct Hs; subst g; cbn; rewrite Hsafe; discriminate.
+Qed.
+
+(* a negative count is answered with an error object, whatever the Go function would do *)
+Lemma mk_repeat_negative : forall (F : string -> list gval -> gret) name callee c0 ret b x g n,
+  convert c0 x = Ok g -> (n < 0)%Z ->
+  run_wrapper F (mk_repeat name callee c0 ret b) [x; OInt n] = Ret (OErr EValue).
+Proof.
+  intros F name callee c0 ret b x g n C N.
+  unfold run_wrapper, unpack. cbn. rewrite C. cbn.
+  unfold guards_pass. cbn. apply Z.ltb_lt in N. rewrite N. reflexivity.
 Qed.
